@@ -14,3 +14,33 @@ Qed.
 Example c08_lookalike_not_quiet :
   rs_quiet [40; 97; 98; 99; 100; 101; 102; 103; 104; 105; 106; 107; 108; 10; 55; 32; 48; 32; 111; 98; 106; 10; 41; 10; 101; 110; 100; 111; 98; 106; 10] = false.
 Proof. vm_compute. reflexivity. Qed.
+(* non-vacuity of recon_finds_current_catalog: every hypothesis is met by the two-catalog file c08c_hi (no xref
+   section, no trailer; the update's catalog 4 0 has the highest id), and the conclusion names that catalog *)
+Example c08_catalog_example :
+  r_root (rc_reconstruct 80 c08c_hi (rc_len c08c_hi) [] None) = Some (4, 0)%Z.
+Proof.
+  unfold c08c_hi. apply recon_finds_current_catalog with (off := 164).
+  - vm_compute. reflexivity.
+  - discriminate.
+  - repeat (constructor; [vm_compute; reflexivity|]). constructor.
+  - vm_compute. reflexivity.
+  - vm_compute. reflexivity.
+  - vm_compute. reflexivity.
+  - vm_compute. reflexivity.
+  - vm_compute. reflexivity.
+  - intros k a _ Hd Hc. apply last_def_in in Hd. destruct Hd as [Hd|Hd]; [discriminate|].
+    destruct k as [k1 k2].
+    change (rs_offsets (N.of_nat (length c08_pre)) c08c_hi_objs)
+      with [(1%Z, 0%Z, 9); (2%Z, 0%Z, 58); (3%Z, 0%Z, 117); (4%Z, 0%Z, 164)] in Hd.
+    simpl in Hd. destruct Hd as [E|[E|[E|[E|[]]]]]; injection E as <- <- <-.
+    + right. reflexivity.
+    + vm_compute in Hc. discriminate.
+    + vm_compute in Hc. discriminate.
+    + left. reflexivity.
+Qed.
+(* a job whose damaged file sorts before an intact one among the --pages files, named in either order: status 3 *)
+Example c08_job_example :
+  let d := mkRjFile [97] false true in let i := mkRjFile [122] false false in
+  rj_exit (mkRjJob None [d; i] [] [] None) = 3 /\ rj_exit (mkRjJob None [i; d] [] [] None) = 3 /\
+  rj_files (mkRjJob None [i; d] [] [] None) = [d; i].
+Proof. vm_compute. repeat split. Qed.
